@@ -55,10 +55,10 @@ CHECKS = {
                 text='Narrow slice (stated): binary graph serialisation only. For every degree sequence in the bound and all symbolic index values the serialised buffer has the documented header and deserialises to the same graph; for arbitrary buffers of 0..N words with symbolic header fields the constructor either aborts or performs only in-bounds accesses and accepts only self-consistent buffers.',
                 note='Trusted: clang-14 IR, irsym executor (validated by concrete co-execution vs ASan native build), z3 5.1.0. One defect found and fixed (out-of-bounds read for inconsistent counts). NOT covered: XmlScanner, MeshFileReader/Writer, PropertyMap, chart/partition parsers (std::string / iostream code has no IR; mutations there are not detected).',
                 ref='3/C11'),
-    'C10': dict(cat='model_checking', engine='E3',
+    'C10': dict(cat='model_checking', engine='E3+E2',
                 technique='own IR symbolic executor on the real index-representative / congruency kernels (arbitrary 64-bit indices, z3 + cvc5 integer encoding) and on the real StandardRefinery / MeshPart refinery / mesh permutation for 1- and 2-cell meshes of every shape with symbolic entity orientation, cell rotation and permutation (solver-guided forking, all-SAT per path); oracles from the definition of a conforming refinement',
-                text='Partial (stated): (1) IndexRepresentative gives congruent numberings of one edge/triangle/quadrilateral the same key and non-congruent ones different keys, CongruencySampler/Mapping codes describe the vertex and edge correspondence, for ALL distinct 64-bit indices. (2) For 1- and 2-cell meshes of quad/tria/hexa/tetra with one (thorough: two) sub-entities numbered in any congruent way and/or the last cell in any orientation preserving numbering, the refined mesh has the formula counts, consistent local faces, unique entities, 1/2 cells per facet, the Euler characteristic, and exactly the pattern children per coarse entity (parents identified by generic-position coordinates); refined parts map one-to-one onto children of their parents and commute with topology; custom mesh permutations keep mesh and part targets consistent.',
-                note='Trusted: clang-14 IR, irsym executor (validated against ASan native build each run), z3 5.1.0, cvc5 1.0 (--solve-bv-as-int=sum, unsat answers only), FaceIndexMapping tables as definition. NOT covered: larger meshes and shipped mesh files, deeper refinement, volume/orientation of children, BoundaryFactory, topology deduction from vertex lists (only its key function), MeshNode/charts/adapt, 3D cell parts with topology (documented as not implemented: loud abort).',
+                text='Partial (stated): (1) IndexRepresentative gives congruent numberings of one edge/triangle/quadrilateral the same key and non-congruent ones different keys, CongruencySampler/Mapping codes describe the vertex and edge correspondence, for ALL distinct 64-bit indices. (2) For 1- and 2-cell meshes of quad/tria/hexa/tetra with one (thorough: two) sub-entities numbered in any congruent way and/or the last cell in any orientation preserving numbering, the refined mesh has the formula counts, consistent local faces, unique entities, 1/2 cells per facet, the Euler characteristic, and exactly the pattern children per coarse entity (parents identified by generic-position coordinates); refined parts map one-to-one onto children of their parents and commute with topology; custom mesh permutations keep mesh and part targets consistent. (3) E2 slice: one refinement step on one cell with symbolic vertex coordinates keeps the total volume, keeps coarse vertices, and every child positively oriented (general triangles, convex quadrilaterals, tetrahedra; affine hexahedra).',
+                note='Trusted: clang-14 IR, irsym executor (validated against ASan native build each run), z3 5.1.0, cvc5 1.0 (--solve-bv-as-int=sum, unsat answers only), FaceIndexMapping tables as definition. NOT covered: larger meshes and shipped mesh files, deeper refinement, volume of general trilinear hexahedra, BoundaryFactory, topology deduction from vertex lists (only its key function), MeshNode/charts/adapt, 3D cell parts with topology (documented as not implemented: loud abort).',
                 ref='3/C10'),
     'C12': dict(cat='model_checking', engine='E3',
                 technique='own IR symbolic executor on the real RootMeshNode::extract_patch / refine_unique for every rank of a symbolic cell-to-rank assignment (solver-guided forking over all assignments without empty patch), on the real PatchHaloSplitter with fully symbolic 64-bit target indices (z3 oracle from the definition), and on Parti2Lvl with symbolic rank count',
@@ -92,8 +92,8 @@ CHECKS = {
                 ref='3/C17'),
     'C18': dict(cat='other', engine='E2',
                 technique='bounded symbolic execution of the real refinery + GridTransfer assembly on one coarse simplex from a 1-3 parameter symbolic affine family; z3 decides interpolation-matrix, transpose and matrix-free identities',
-                text='Partial, restricted (stated): one coarse triangle (thorough: tetrahedron) refined by the real StandardRefinery; Lagrange1 / Discontinuous P0,P1 (thorough: Lagrange2): prolongation rows sum to 1, Lagrange1 entries equal the coarse basis values at fine nodes, restriction = transpose, LAFEM::Transfer prol/rest/trunc and matrix-free prolongation equal the assembled matrices for all vectors.',
-                note='Trusted: SymReal, z3 5.1.0. Pivoted symbolic inversion limits the geometry to <= 3 free parameters; T*P = I is only true up to the rounding of the cubature tables and is not claimed. Outside: quadrilaterals/hexahedra, general vertices, permuted meshes, multi-level / global / muxed transfer.',
+                text='Partial, restricted (stated): one coarse triangle (thorough: tetrahedron) refined by the real StandardRefinery; Lagrange1 / Discontinuous P0,P1 (thorough: Lagrange2): prolongation rows sum to 1, Lagrange1 entries equal the coarse basis values at fine nodes, restriction = transpose, LAFEM::Transfer prol/rest/trunc and matrix-free prolongation equal the assembled matrices for all vectors; with the fine and/or the coarse mesh renumbered by a mesh permutation the P1 prolongation (assembled and matrix-free) still reproduces every affine function at the fine vertices.',
+                note='Trusted: SymReal, z3 5.1.0. Pivoted symbolic inversion limits the geometry to <= 3 free parameters; T*P = I is only true up to the rounding of the cubature tables and is not claimed. Outside: quadrilaterals/hexahedra, general vertices, multi-level / global / muxed transfer, the control-layer assembly (Control::Asm::asm_transfer*).',
                 ref='3/C18'),
     'C19': dict(cat='model_checking', engine='E3',
                 technique='own symbolic executor over the clang-14 LLVM IR of the real adjacency sources (z3 bit-vectors, region memory, path forking); set/multiset oracles decided by z3 per path; memory safety and leak checks by the executor',
